@@ -283,6 +283,7 @@ class Prop(object):
                         r.states += 1
                         label = '%s, %d signature(s), recipients %s, %s' % (mode, nsig, recips, comp)
                         probs = []
+                        dec_export_bad = False
                         try:
                             m = pgpy.PGPMessage.new(b'composition test', compression=CompressionAlgorithm[comp], format='b')
                             signers = [S.signer_cert('ed25519a')[0], S.signer_cert('ecdsa_p256a')[0]][:nsig]
@@ -318,13 +319,23 @@ class Prop(object):
                                                     [R.key_recipient(rc)[2]] if rc != 'pass' else (), [R.PASSPHRASE.encode()] if rc == 'pass' else ())
                             p2, _rec2 = self._grammar(pt, nsig if mode == 'sign-then-encrypt' else 0, COMP_ID[comp], label)
                             probs += ['plaintext: ' + x for x in p2]
+                            # the message PGPy hands back from decrypt is a message like any other: its export is a well-formed composition
+                            # and carries what went in
+                            if mode == 'sign-then-encrypt':
+                                d = e2.decrypt(R.PASSPHRASE) if rc == 'pass' else R.key_recipient(rc)[0].decrypt(e2)
+                                r.transitions += 1
+                                p3, _rec3 = self._grammar(bytes(d), nsig, COMP_ID[comp], label)
+                                probs += ['export of the decrypted message: ' + x for x in p3]
+                                probs += ['decrypted message: ' + x for x in self._same(m, d)]
+                                if p3:
+                                    dec_export_bad = True
                         except rmsg.GrammarError as ex:
                             probs.append('export is not derivable from the grammar: %r' % (ex,))
                         except Exception as ex:
                             probs.append('raises %r' % (ex,))
                         r.outcomes['ok' if not probs else 'violation'] += 1
                         if probs:
-                            r.viol('encrypted', {'part': 'encrypted', 'mode': mode, 'flag': any('flag' in p for p in probs)}, case, label + ': ' + '; '.join(probs[:3]))
+                            r.viol('encrypted', {'part': 'encrypted', 'mode': mode, 'flag': any('flag' in p for p in probs), 'decrypted_export': dec_export_bad}, case, label + ': ' + '; '.join(probs[:3]))
         r.samples.append({'modes': ['sign-then-encrypt', 'encrypt-then-sign']})
         return r
 
